@@ -80,4 +80,72 @@ theorem go_ClearLatest (c : Epochs) (offset : Int) :
     have h' : ¬ (c.latestOffset < offset) := h
     simp [Epochs.clearLatest, clearLatest_facts, Cmp.evalInt, h']
 
+/-- `findEpoch`: the first entry whose epoch is at least `epoch` (Go's binary search, literally), or nil -/
+theorem go_findEpoch (c : Epochs) (epoch : Nat) :
+    run prog noExt 20 "findEpoch" (some (encCache c)) [.int epoch] =
+      .ok { rets := [match c.findEpoch epoch with | some e => encEpoch e | none => .nil],
+            recv := some (encCache c), eff := [] } := by
+  simp [run, runG, fn_leaderEpochCache_findEpoch, gomini, encCache]
+  rw [search_eq c.length _ (fun i => match c[i]? with | some e => Gen.Log.findEpochCmp.evalNat e.1 epoch | none => true)]
+  · simp only [Epochs.findEpoch]
+    generalize goSearch c.length (fun i => match c[i]? with | some e => Gen.Log.findEpochCmp.evalNat e.1 epoch | none => true) = j
+    by_cases hlt : j < c.length
+    · have hj : c[j]? = some c[j] := by simp [hlt]
+      simp [hlt, hj, gomini, binInt]
+    · have hj : c[j]? = none := by simp; omega
+      simp [hlt, hj, gomini, binInt]
+  · intro k hk
+    have : c[k]? = some c[k] := by simp [hk]
+    simp [gomini, this, encEpoch, binInt, findEpoch_facts, Cmp.evalNat]
+
+
+/-- `LastOffsetForLeaderEpoch`: start offset of the first epoch greater than `epoch`, else -1 -/
+theorem go_LastOffsetForLeaderEpoch (c : Epochs) (epoch : Nat) :
+    run prog noExt 24 "LastOffsetForLeaderEpoch" (some (encCache c)) [.int epoch] =
+      .ok { rets := [.int (c.lastOffsetFor epoch)], recv := some (encCache c), eff := [] } := by
+  have hb := findEpoch_body 11 c (epoch + 1) []
+  simp only [Int.natCast_add, Int.natCast_one] at hb
+  simp [run, runG, fn_leaderEpochCache_LastOffsetForLeaderEpoch, gomini, binInt, hb, Epochs.lastOffsetFor]
+  cases c.findEpoch (epoch + 1) with
+  | none => simp [gomini]
+  | some e => simp [gomini, encEpoch]
+
+/-- `ClearEarliest`: nothing when the cache starts at or after the offset or no entry lies below it; else the entries below
+are dropped, the last of them is put back at `offset` when the remainder would start later (or be empty), one flush. -/
+set_option maxRecDepth 8000 in
+set_option maxHeartbeats 1600000 in
+theorem go_ClearEarliest (c : Epochs) (offset : Int) :
+    run prog noExt 24 "ClearEarliest" (some (encCache c)) [.int offset] =
+      .ok { rets := [.nil], recv := some (encCache (c.clearEarliest offset)),
+            eff := if c.earliestOffset ≥ offset ∨ (c.filter (fun e => e.2 < offset)) = [] then [] else [("flush", [])] } := by
+  by_cases h : c.earliestOffset ≥ offset
+  · have h' : offset ≤ c.earliestOffset := h
+    simp [run, runG, fn_leaderEpochCache_ClearEarliest, gomini, earliestOffset_body, binInt, h, h', Epochs.clearEarliest, clearEarliest_facts, Cmp.evalInt]
+  · have hl := clearEarliest_loop 17 offset c [] 0 0
+    simp [run, runG, fn_leaderEpochCache_ClearEarliest, gomini, builtin, earliestOffset_body, binInt, h]
+    simp [encCache, gomini]
+    rw [hl _ (by simp [gomini]) (by simp [gomini]) (by simp [gomini])]
+    have hfl := ceSt_frame offset c "l" (by decide) (by decide) (by decide)
+    have hfo := ceSt_frame offset c "offset" (by decide) (by decide) (by decide)
+    simp [gomini, ceSt_earliest, ceSt_removed, hfl, hfo, ceSt_eff, binInt]
+    rcases List.eq_nil_or_concat (c.filter (fun e => decide (e.2 < offset))) with hE | ⟨E', lastE, hE⟩
+    · simp [hE, h, Epochs.clearEarliest, clearEarliest_facts, Cmp.evalInt, hfl, ceSt_eff, gomini]
+    · have hlen : (E'.length + 1 : Int) ≤ c.length := by
+        have := List.length_filter_le (fun e => decide (e.2 < offset)) c
+        rw [hE] at this; simp at this; omega
+      have h0 : (0:Int) ≤ ↑E'.length + 1 := by omega
+      obtain ⟨rest, hrest⟩ : ∃ r, c.drop (E'.length + 1) = r := ⟨_, rfl⟩
+      have hd : List.drop (E'.length + 1) (List.map encEpoch c) = List.map encEpoch rest := by
+        rw [← hrest, List.map_drop]
+      have hlast : (E' ++ [lastE]).getLast? = some lastE := by simp
+      simp [hE, h, Epochs.clearEarliest, clearEarliest_facts, Cmp.evalInt, hfl, hfo, ceSt_eff, gomini, List.concat_eq_append,
+          ceSt_removed, ceSt_earliest, binInt, h0, hlen, hd, hrest, builtin, hlast, earliestOffset_body']
+      cases rest with
+      | nil =>
+        by_cases hc : offset < -1 <;>
+          simp [hc, hfl, hfo, ceSt_eff, gomini, ceSt_removed, ceSt_earliest, binInt, builtin, spliceLast, hE, List.concat_eq_append, encEpoch, Epochs.earliestOffset]
+      | cons r rest' =>
+        by_cases hc : offset < r.2 <;>
+          simp [hc, hfl, hfo, ceSt_eff, gomini, ceSt_removed, ceSt_earliest, binInt, builtin, spliceLast, hE, List.concat_eq_append, encEpoch, Epochs.earliestOffset]
+
 end Liftbridge.Props.GoEpochCache
